@@ -130,6 +130,9 @@ class Exec(Interp):
             return fr.ann[name]
         c = fr.contract
         if c is not None and name in c.locals:
+            if c.locals[name] is None:
+                fr.ann[name] = None     # explicitly untyped local: keeps the kind of what is assigned
+                return None
             k = self.parse_type(c.locals[name], fr.module)
             fr.ann[name] = k
             return k
@@ -228,7 +231,8 @@ class Exec(Interp):
         if isinstance(node.target, ast.Name):
             c = fr.contract
             if c is not None and node.target.id in c.locals:
-                fr.ann[node.target.id] = self.parse_type(c.locals[node.target.id], fr.module)
+                t = c.locals[node.target.id]
+                fr.ann[node.target.id] = self.parse_type(t, fr.module) if t is not None else None
             else:
                 try:
                     fr.ann[node.target.id] = self.parse_type(node.annotation, fr.module)
@@ -414,9 +418,17 @@ class Exec(Interp):
             n = self.list_len(st, ks)
             return n, (lambda i: self.list_get(st, ks, i))
         if k is KVal:
-            l = self.coerce(st, itv, KList(KVal), node)
-            n = self.list_len(st, l)
-            return n, (lambda i: self.list_get(st, l, i))
+            V = val_sort()
+            t = itv.term
+            self.type_ob(st, z3.Or(V.is_vlist(t), V.is_vtuple(t), V.is_vstr(t)), "iterable", node)
+            l = SV(KList(KVal), z3.If(V.is_vlist(t), V.lr(t), V.tr(t)))
+            n = z3.If(V.is_vstr(t), z3.Length(V.s(t)), self.list_len(st, l))
+
+            def get(i, l=l, t=t):
+                # iterating a str yields its 1-character strings
+                e = self.list_get(st, l, i)
+                return SV(KVal, z3.If(V.is_vstr(t), V.vstr(z3.SubString(V.s(t), i, 1)), e.term))
+            return n, get
         if k is KConst and isinstance(itv.const, EmptyLit):
             return z3.IntVal(0), (lambda i: NONE)
         raise Unsupported("iteration over %s (line %s)" % (k, getattr(node, "lineno", "?")))
@@ -647,7 +659,7 @@ class Exec(Interp):
                 t = st.fresh("res_" + fi.node.name, sort_of(rk))
                 res = SV(rk, t)
                 if is_refkind(rk):
-                    st.assume(z3.And(t >= 0, t < st.nref))
+                    st.assume(z3.And((t >= 0) if rk.nullable else (t > 0), t < st.nref))
             ctx.result = res
             if chosen.returns is not None:
                 rv = self.spec_value(st, chosen.returns, ctx, env, fi.module, fi)
@@ -781,7 +793,9 @@ class Exec(Interp):
                 st.oblige(q + ":cases-exhaustive", z3.Or(whens), kind="cases-exhaustive", assume_after=False)
             desc = "return" if outcome.kind == "return" else "raise %s at %s" % (outcome.exc.cls.__name__, outcome.exc.where)
             for cs, w in zip(c.cases, whens):
-                if cs.raises is not None:
+                if cs.any_outcome:
+                    ok = True
+                elif cs.raises is not None:
                     ecls = self.exc_class(cs.raises, fi)
                     ok = outcome.kind == "raise" and issubclass(outcome.exc.cls, ecls)
                 else:
@@ -793,12 +807,12 @@ class Exec(Interp):
                     continue
                 # this path's outcome matches the case: its clauses must hold under `when`
                 saved_pc = (list(st.pc), list(st.qpc))
-                if cs.raises is None and cs.returns is not None and rk is not KNone:
+                if cs.raises is None and cs.returns is not None and rk is not KNone and outcome.kind == "return":
                     rv = self.spec_value(st, cs.returns, ctx)
                     g = self.eq(st, ctx.result, rv)
                     st.oblige("%s:post/%s/returns" % (q, cs.name), z3.Implies(w, g), kind="post",
                               info={"clause": "result == " + str(cs.returns), "outcome": desc}, assume_after=False)
-                if cs.raises is None and cs.returns_pred is not None:
+                if cs.raises is None and cs.returns_pred is not None and outcome.kind == "return":
                     g = self.spec_eval(st, cs.returns_pred, ctx)
                     st.oblige("%s:post/%s/returns_pred" % (q, cs.name), z3.Implies(w, g), kind="post",
                               info={"clause": str(cs.returns_pred), "outcome": desc}, assume_after=False)
